@@ -98,6 +98,19 @@ def gridProbs {α} [Add α] [Sub α] [Mul α] [Div α] [Inhabited α]
   (multiIndices (coords.toList.map Array.size)).map fun I =>
     cellProbAt one half c F coords deltas I.toArray
 
+/-! ### numpy reshape / broadcasting of the per-dimension arrays -/
+
+/-- shape `fbar_out_shape`: ones, except `la` at axis `a` and `lb` at axis `b` -/
+def shape2 (n a la b lb : Nat) : List Nat :=
+  (List.range n).map fun k => if k = a then la else if k = b then lb else 1
+
+/-- C-order flat offset of the multi-index `I` in an array of the given shape, with numpy broadcasting
+(an axis of length 1 ignores the index): Horner form over the first `k` axes. -/
+def flatUpTo (shape : Nat → Nat) (I : Nat → Nat) : Nat → Nat
+  | 0 => 0
+  | k + 1 => flatUpTo shape I k * shape k + (if shape k = 1 then 0 else I k)
+
+
 /-- grid axis of `_compute`: `np.arange(min, max + delta, delta)` -/
 def gridAxis (lo hi delta : Float) : List Float := arange lo (hi + delta) delta
 
